@@ -2,7 +2,7 @@
    Call-level theorems for EVERY shape (any kind, nesting, size, arrangement, Poisonable wrapping), mode and
    hold table of other threads, in fault-free worlds. (The statement over whole histories, mon_C04 on the
    model, is checked on every generated scenario and is the next proof obligation: see DESIGN.md.) *)
-From HL Require Import Base Model Shape Algo Api OpsLemmas Lemmas ShapeLemmas ApiLemmas QuietLemmas Check Monitors Pf_Calls.
+From HL Require Import Base Model Shape Algo Api OpsLemmas Lemmas ShapeLemmas ApiLemmas QuietLemmas Check Monitors Pf_Calls Pf_Hist Pf_Hist4.
 
 (* every container / wrapper / collection impl of get_ptrs enumerates each declared leaf exactly as declared *)
 Theorem C04_leaves_get_ptrs : forall am s, Permutation (rsleaves (get_ptrs am s)) (kleaves s).
@@ -44,7 +44,11 @@ Theorem C04_scoped_call :
                            | None => w_psn w
                            end) /\
       w_keyf w' t = (if lent then w_keyf w t else false) /\
-      (forall x, x <> t -> w_keyf w' x = w_keyf w x).
+      (forall x, x <> t -> w_keyf w' x = w_keyf w x) /\
+      exists w1 w2 evR,
+        run nopw t (raw_lock fuel m (alg_of am s)) w = (ODone VUnit, w1) /\
+        eff w w1 (acq_all t m (kleaves s) (w_raw w)) /\
+        frame (emit w1 (EMark t 1)) w2 /\ w_trace w' = evR ++ w_trace w2 /\ Forall tail_ev evR.
 Proof. exact scoped_call_quiet. Qed.
 
 Example C04_nonvacuous :
@@ -52,7 +56,35 @@ Example C04_nonvacuous :
   acquirable s = true /\ NoDup (leaves s) /\ can_all Sh (kleaves s) (fun _ => mkraw None [7]) = true.
 Proof. simpl. repeat split; repeat constructor; simpl; intuition discriminate. Qed.
 
+(* ---------------------------------------------------------------- every history *)
+(* For EVERY fault-free history (any number of threads, any collections, any holds of other parties at the start) whose
+   acquired collections have their leaves among the scenario's locks and are read only if all leaves are RwLocks (what
+   the Sharable bound enforces), the monitor the check evaluates on the implementation holds of the model: a guard is
+   returned only with every leaf held exactly once in the requested mode; try_* performs no blocking operation, and when
+   it fails the hold table is unchanged and the key is still the caller's; the closure of a scoped call is entered exactly
+   once, with every leaf held, if the acquisition succeeded and not at all otherwise. *)
+Theorem C04_every_history :
+  forall sc, wf_histb sc && wf4b sc = true -> mon_C04 sc (model_obs sc) = true.
+Proof. exact C04_all_histories_dec. Qed.
+Check C04_every_history : forall sc, wf_histb sc && wf4b sc = true -> mon_C04 sc (model_obs sc) = true.
+
+Definition ex_hist4 : scen :=
+  mks 4 1 [0; 1; 2; 3] []
+      [SLeaf KMutex 0; SPoison 0 (SLeaf KRw 1); SBoxed (SSeq [SLeaf KMutex 0; SPoison 0 (SLeaf KRw 1)]);
+       SRetry (SSeq [SLeaf KMutex 0; SLeaf KMutex 2]); SOwned 0 (SSeq [SLeaf KRw 3])]
+      [(2, mkraw (Some 100) [])] [] [] 4
+      [(0, AKeyGet); (0, AAcquire 2 Ex FGuard); (1, AKeyGet); (1, AAcquire 3 Ex FTry);
+       (1, AAcquire 4 Sh (FScopedTry true [CRead 0])); (1, AAcquire 3 Ex (FScopedTry true [CWrite 0]));
+       (0, AGuardUnlock); (0, AAcquire 1 Sh (FScoped true [CRead 0; CPanic])); (0, AAcquire 4 Sh FTry); (0, AGuardDrop);
+       (1, AAcquire 2 Ex (FScoped false [CWrite 1; CWrite 0]))].
+Example C04_every_history_nonvacuous :
+  wf_histb ex_hist4 && wf4b ex_hist4 = true /\ length (model_obs ex_hist4) = 11 /\
+  mon_C04 ex_hist4 (model_obs ex_hist4) = true /\
+  map co_ret (model_obs ex_hist4) = [RB true; ROk; RB true; RWouldBlock; ROk; RWouldBlock; ROk; RPanicked; ROk; ROk; ROk].
+Proof. vm_compute. repeat split. Qed.
+
 Print Assumptions C04_leaves_get_ptrs.
 Print Assumptions C04_lock_all_or_wait.
 Print Assumptions C04_try_all_or_nothing.
 Print Assumptions C04_scoped_call.
+Print Assumptions C04_every_history.
